@@ -167,10 +167,23 @@ pub fn random_ast(t: &mut Tape, max_depth: u32) -> Sx {
 /// parentheses that would need they are white space)
 fn gen_seq(t: &mut Tape, depth: u32, max_depth: u32) -> Sx {
     let n = [1, 1, 1, 2, 2, 3][t.choose(6)];
-    let mut acc = gen_ast(t, depth + 1, max_depth, true);
+    // statements and the separators between them; `;` binds tighter than a blank line, so runs of `;` are grouped
+    // first and the tree never needs parentheses around a separator (inside parentheses a blank line is white space)
+    let mut runs: Vec<Sx> = vec![gen_ast(t, depth + 1, max_depth, true)];
     for _ in 1..n {
-        let sep = if t.flag() { "ExpressionSeparator" } else { "Subexpression" };
-        acc = Sx::node(sep, Some(acc), Some(gen_ast(t, depth + 1, max_depth, true)));
+        let semicolon = t.flag();
+        let next = gen_ast(t, depth + 1, max_depth, true);
+        if semicolon {
+            let last = runs.pop().unwrap();
+            runs.push(Sx::node("ExpressionSeparator", Some(last), Some(next)));
+        } else {
+            runs.push(next);
+        }
+    }
+    let mut it = runs.into_iter();
+    let mut acc = it.next().unwrap();
+    for r in it {
+        acc = Sx::node("Subexpression", Some(acc), Some(r));
     }
     acc
 }
